@@ -524,7 +524,14 @@ func C06(r *simkit.Run) {
 			}
 			// Never the last entry: its cumulative hash alone pins the whole byte stream.
 			i := t.Draw("entry", len(es)-1)
-			switch t.Draw("self-consistent-edit", 3) {
+			switch t.Draw("self-consistent-edit", 4) {
+			case 3:
+				// Two entry lines joined into one (" h1:" and the line break between them removed): the
+				// file lists other entries, and the stream of names and hashes it is summed over is the same.
+				es[i+1].name = es[i].name + es[i].sum + es[i+1].name
+				es = append(es[:i:i], es[i+1:]...)
+				what = fmt.Sprintf("sum-join-entries %d,%d (header unchanged)", i, i+1)
+				r.Probe("sum-file-entries-joined")
 			case 0:
 				c := []byte(es[i].sum)
 				if c[0] == 'Z' {
